@@ -52,6 +52,32 @@ package res
 //@   loop 3 invariant loopentry(si) <= si && si <= sl && sl == len(s) && tokEnd(s, loopentry(si)) == tokEnd(s, si)
 //@   loop 3 decreases sl - si
 //@
+//@ # ---------------------------------------------------------------- Values: agrees with Matches on every name without '>'
+//@ func (p Pattern) Values(s string) (m map[string]string, ok bool)
+//@   requires valid: pvalid0(string(p))
+//@   requires name: forall(k, 0, len(s), s[k] != '>')
+//@   modifies alloc, map:map[string]string
+//@   ensures sem: ok == pmatch(string(p), s, 0, 0)
+//@   ensures nomatch: imp(!ok, isNil(m))
+//@   # a '>' that is not the last character is excluded by the grammar
+//@   dead return3
+//@   loop 1 invariant 0 <= pi && pi <= pl && 0 <= si && si <= sl && pl == len(p) && sl == len(s)
+//@   loop 1 invariant hd: pi == pl || tokStart(string(p), pi) || p[pi] == '.'
+//@   loop 1 invariant carry: pmatch(string(p), s, 0, 0) == pmatch(string(p), s, pi, si)
+//@   loop 1 decreases pl - pi
+//@   loop 2 invariant loopentry(pi) <= pi && pi <= pl && pl == len(p) && tokEnd(string(p), loopentry(pi)) == tokEnd(string(p), pi)
+//@   loop 2 decreases pl - pi
+//@   loop 3 invariant loopentry(si) <= si && si <= sl && sl == len(s) && tokEnd(s, loopentry(si)) == tokEnd(s, si)
+//@   loop 3 decreases sl - si
+//@   loop 4 invariant loopentry(pi) <= pi && pi <= pl && pl == len(p) && tokEnd(string(p), loopentry(pi)) == tokEnd(string(p), pi)
+//@   loop 4 decreases pl - pi
+//@   loop 5 invariant loopentry(si) <= si && si <= sl && sl == len(s) && tokEnd(s, loopentry(si)) == tokEnd(s, si)
+//@   loop 5 decreases sl - si
+//@   loop 6 invariant loopentry(pi) <= pi && 1 <= pi && pi <= pl && 0 <= si && si < sl && pl == len(p) && sl == len(s) && c == p[pi-1]
+//@   loop 6 invariant lit: !(tokStart(string(p), pi-1) && (c == '$' || c == '*' || c == '>'))
+//@   loop 6 invariant carry: pmatch(string(p), s, 0, 0) == pmatch(string(p), s, pi-1, si)
+//@   loop 6 decreases pl - pi
+//@
 //@ # ---------------------------------------------------------------- IndexWildcard
 //@ spec func wildAt(p string, i int) bool
 //@   = tokStart(p, i) && (p[i] == '*' || p[i] == '$' || (p[i] == '>' && i == len(p)-1))
